@@ -32,7 +32,8 @@ RULE = ('three lock-step case kinds. single: histories over Req/OpenPool/Start/C
         'ref: every Open/Close sequence up to length 9 (quick) / 12 (thorough) on the real RefCountedSink plus random '
         'histories with 3 holders, requests and groups of calls issued concurrently against an underlying sink whose '
         'Open/Close yield; shared: random Create/DropHolder histories over 3 keys and falsy keys on the real '
-        'SharedSinkProvider with explicit holder references and gc.collect(). non-trivial = at least one underlying '
+        'SharedSinkProvider with explicit holder references and gc.collect(), with the underlying sink of a held key faulting / being closed / '
+        're-opened by its holders between CreateSink calls (the provider must keep returning the held sink). non-trivial = at least one underlying '
         'Open/Create observed; distinct by canonical JSON of (case, observation)')
 TRUSTED = ['mock provider / mock sinks / controlled open results in harness/props/c16.py (environment contract of DESIGN.md '
            'section 10: created Idle, Open completes only when told, Closed is final)',
@@ -241,12 +242,16 @@ def _make_mocks():
       super(RecSink, self).__init__()
       self.w = world
       self.sid = sid
+      self.st = CS.Idle
+      self.track = False     # shared cases: Open/Close move the reported state
 
     @property
     def state(self):
-      return CS.Idle
+      return self.st
 
     def Open(self):
+      if self.track:
+        self.st = CS.Open
       n = self.w.nopen
       self.w.nopen += 1
       self.w.ev(['uopen', n])
@@ -257,6 +262,8 @@ def _make_mocks():
       return r
 
     def Close(self):
+      if self.track:
+        self.st = CS.Closed
       self.w.ev(['uclose'])
       if self.w.yielding:
         _S['gevent'].sleep(0)
@@ -504,7 +511,8 @@ def run_shared(case):
 
     def CreateSink(self, properties):
       s = _S['RecSink'](w, len(made))
-      made.append(s.sid)
+      s.track = True
+      made.append(s)         # the underlying sinks (environment); they do not reference their wrappers
       w.ev(['under', s.sid])
       return s
 
@@ -515,14 +523,24 @@ def run_shared(case):
   if do_gc:
     gc.freeze()         # collections during this case look only at objects created from here on
   try:
-    return _run_shared_ops(case, w, prov, holders, do_gc)
+    return _run_shared_ops(case, w, prov, holders, do_gc, made)
   finally:
     holders.clear()
     if do_gc:
       gc.unfreeze()
 
 
-def _run_shared_ops(case, w, prov, holders, do_gc):
+def _use_holder(holders, r, do_open):
+  ent = holders.get(r)
+  if ent is None:
+    return 0, 0
+  obj = ent[1]
+  (obj.Open if do_open else obj.Close)()
+  under = obj.next_sink if isinstance(obj, _S['RefCountedSink']) else obj
+  return under.sid, int(under.st)
+
+
+def _run_shared_ops(case, w, prov, holders, do_gc, made):
   nref = 0
   steps = []
   for op in case['ops']:
@@ -544,6 +562,20 @@ def _run_shared_ops(case, w, prov, holders, do_gc):
       if do_gc:
         gc.collect()
       steps.append({'ev': w.take(), 'drop': r})
+    elif op[0] == 'env':
+      # environment: an underlying sink now reports this state (1 Idle, 2 Open, 3 Busy, 4 Closed: fault / close)
+      n = _sel(op[1], list(range(len(made))))
+      if 0 <= n < len(made):
+        made[n].st = int(op[2])
+        if int(op[2]) == 4 and op[3:] == ['fault']:
+          made[n].on_faulted.Set(Exception('fault'))
+          settle(3)
+      steps.append({'ev': w.take(), 'env': [n, int(op[2])]})
+    elif op[0] in ('hopen', 'hclose'):
+      # a holder uses its reference: Open()/Close() on what CreateSink gave it (the mock reports Open / Closed)
+      r = _sel(op[1], sorted(holders))
+      n, st = _use_holder(holders, r, op[0] == 'hopen')     # in a function of its own: no reference survives in our locals
+      steps.append({'ev': w.take(), 'env': [n, st], 'holder': r})
     else:
       raise ValueError(op[0])
   return {'steps': steps}
@@ -673,17 +705,40 @@ def _rand_ref(r):
 def _rand_shared(r):
   n = r.choice([3, 6, 10, 16, 24])
   ops = []
+  envy = r.random() < 0.7
   for _ in range(n):
-    if r.random() < 0.55:
+    x = r.random()
+    if envy and x < 0.3:
+      y = r.random()
+      if y < 0.4:
+        ops.append(['env', r.choice([['rel', 0], ['rel', 1], ['rel', r.randrange(0, 4)], r.randrange(0, 6)]), r.choice([4, 4, 4, 1, 2, 3])] +
+                   (['fault'] if r.random() < 0.5 else []))
+      elif y < 0.7:
+        ops.append(['hclose', r.choice([['rel', 0], ['rel', r.randrange(0, 5)], r.randrange(0, 10)])])
+      else:
+        ops.append(['hopen', r.choice([['rel', 0], ['rel', r.randrange(0, 5)], r.randrange(0, 10)])])
+    elif x < 0.7:
       ops.append(['create', r.choice([1, 1, 2, 2, 3, 0, -1, -2])])
     else:
       ops.append(['drop', r.choice([['rel', r.randrange(0, 6)], ['rel', 0], r.randrange(0, 10)])])
   return {'kind': 'shared', 'ops': ops, 'gc': r.random() < 0.5}
 
 
+def _shared_templates():
+  out = []
+  for k1 in (1, 2):
+    for mid in ([['env', ['rel', 0], 4]], [['env', ['rel', 0], 4, 'fault']], [['hopen', 0], ['hclose', 0]], [['hclose', 0]],
+                [['hopen', 0], ['env', ['rel', 0], 4, 'fault']], [['hopen', 0], ['hopen', 0], ['hclose', 0]],
+                [['env', ['rel', 0], 3]], [['env', ['rel', 0], 2]]):
+      # a holder keeps its reference while the shared connection dies / is closed; the same key is asked for again
+      out.append({'kind': 'shared', 'ops': [['create', k1]] + mid + [['create', k1], ['hopen', 1], ['create', k1], ['create', 3 - k1]]})
+      out.append({'kind': 'shared', 'gc': True, 'ops': [['create', k1], ['create', k1]] + mid + [['drop', 0], ['create', k1], ['drop', 1], ['drop', 2], ['create', k1]]})
+  return out
+
+
 def gen_cases(tier, seed):
   quick = tier == 'quick'
-  out = list(_templates())
+  out = list(_templates()) + _shared_templates()
   for d in range(1, (3 if quick else 4) + 1):
     for combo in itertools.product(range(len(ALPHA)), repeat=d):
       out.append({'kind': 'single', 'ops': [ALPHA[i] for i in combo]})
@@ -849,7 +904,7 @@ def _mon_shared(case, obs):
         if not wrapped:
           v.append(('not-ref-counted', 'op %d: key %s returned a bare sink' % (k, key)))
       holders[stp['ref']] = (key, n, wrapped)
-    else:
+    elif op[0] == 'drop':
       holders.pop(stp['drop'], None)
     k += 1
   return v
@@ -939,8 +994,10 @@ def to_coq(case, obs):
     for op, stp in zip(case['ops'], obs['steps']):
       if op[0] == 'create':
         labels.append('SCreate %s' % C.zlit(op[1] if op[1] > 0 else 0))
-      else:
+      elif op[0] == 'drop':
         labels.append('SDrop %s' % _nat(stp['drop']))
+      else:
+        labels.append('SEnv %s %s' % (_nat(stp['env'][0]), C.zlit(stp['env'][1])))
 
     def ev(e):
       if e[0] == 'under':
@@ -948,7 +1005,8 @@ def to_coq(case, obs):
       if e[0] == 'ret':
         return 'SRet %s %s' % (_nat(e[1]), C.blit(e[2]))
       raise ValueError('event outside the model: %r' % (e,))
-    exp = C.lst([C.lst([ev(e) for e in s['ev']]) for s in obs['steps']])
+    # the holders' own Open/Close calls reach the underlying sink (uopen/uclose): RefCount.v's subject, not Shared.v's
+    exp = C.lst([C.lst([ev(e) for e in s['ev'] if e[0] in ('under', 'ret')]) for s in obs['steps']])
     return 'CShared %s %s' % (C.lst(labels), exp)
   raise ValueError(k)
 
@@ -976,7 +1034,7 @@ def stats(cases, obs):
   maxwait = 0
   ref = dict.fromkeys(['open_first', 'open_shared', 'close_last', 'close_not_last', 'close_surplus', 'request',
                        'concurrent_groups', 'yielding_cases'], 0)
-  sh = dict.fromkeys(['create_hit', 'create_miss', 'create_falsy_key', 'recreate_after_all_holders_dropped', 'drop', 'drop_unknown',
+  sh = dict.fromkeys(['create_hit', 'create_miss', 'create_falsy_key', 'recreate_after_all_holders_dropped', 'drop', 'drop_unknown', 'env_closed', 'env_other_state', 'create_hit_while_underlying_closed',
                       'gc_cases'], 0)
   for c, o in zip(cases, obs):
     if not isinstance(o, dict) or 'harness_exc' in o:
@@ -1048,8 +1106,11 @@ def stats(cases, obs):
       seen = set()
       sh['gc_cases'] += 1 if c.get('gc') else 0
       live = set()
+      closed_now = {}
       for op, s in zip(c['ops'], o['steps']):
         names = [e[0] for e in s['ev']]
+        if 'env' in s:
+          closed_now[s['env'][0]] = s['env'][1] == 4
         if op[0] == 'create':
           live.add(s['ref'])
           if op[1] <= 0:
@@ -1061,8 +1122,13 @@ def stats(cases, obs):
             seen.add(op[1])
           else:
             sh['create_hit'] += 1
-        else:
+            tgt = [e for e in s['ev'] if e[0] == 'ret'][0][1]
+            if closed_now.get(tgt):
+              sh['create_hit_while_underlying_closed'] += 1
+        elif op[0] == 'drop':
           sh['drop' if s['drop'] in live else 'drop_unknown'] += 1
           live.discard(s['drop'])
+        else:
+          sh['env_closed' if s['env'][1] == 4 else 'env_other_state'] += 1
   br['max_concurrently_blocked_tasks'] = maxwait
   return {'single_labels': labs, 'single_events': evs, 'single_branches': br, 'refcount_branches': ref, 'shared_branches': sh}
